@@ -21,7 +21,7 @@ _SYMSEQ_NATIVE = (str, bytes, bytearray)
 
 def _any_sym(args, kwargs=None):
     for a in args:
-        if is_sym(a) or isinstance(a, (FL.SymFloat, SymDict)):
+        if is_sym(a) or isinstance(a, (FL.SymFloat, SymDict)) or hasattr(type(a), "__sym_format__") or hasattr(type(a), "__sym_str__"):
             return True
         if isinstance(a, (list, tuple)):
             for x in a:
